@@ -3,6 +3,7 @@
 //! usage: zv <property> --seed N --tier quick|thorough --out DIR [--replay FILE]
 mod util;
 mod c13;
+mod c20;
 
 use util::Args;
 
@@ -28,6 +29,7 @@ fn main() {
     util::quiet_panics();
     match prop.as_str() {
         "C13" => c13::run(&args),
+        "C20" => c20::run(&args),
         _ => { eprintln!("unknown property {}", prop); std::process::exit(2); }
     }
 }
